@@ -31,6 +31,23 @@ type sup struct {
 
 func (s *sup) f(name string) string { return s.pkg + ".runningRoutine." + name }
 
+// recvRole is the role of a method's receiver variable.
+func recvRole(c *Ctx, d *core.FuncDecl) string {
+	if d.Decl.Recv != nil && len(d.Decl.Recv.List) == 1 && len(d.Decl.Recv.List[0].Names) == 1 {
+		if v, ok := d.Pkg.TypesInfo.Defs[d.Decl.Recv.List[0].Names[0]].(*types.Var); ok {
+			return c.Role(v)
+		}
+	}
+	return "?recv"
+}
+
+func paramRole(c *Ctx, d *core.FuncDecl, pred func(types.Type) bool) string {
+	if v := paramWhere(d, pred); v != nil {
+		return c.Role(v)
+	}
+	return "?param"
+}
+
 func runSupervisor(c *Ctx, pkg string) {
 	s := &sup{c: c, a: newAgg(c), pkg: pkg}
 	defer s.a.flush()
@@ -84,7 +101,7 @@ func (s *sup) start(start, exec *core.FuncDecl) {
 			if ev.Kind != core.KGo || ev.Callee != exec.Obj {
 				continue
 			}
-			a.requireGuard("R12", name+"/go-execute", g, i, false, for_(fld("forceRestart"), fnot(fld(s.f("success")))), "spawning the routine")
+			a.requireGuard("R12", name+"/go-execute", g, i, false, for_(fld(paramRole(c, start, isBoolType)), fnot(fld(s.f("success")))), "spawning the routine")
 			a.note("R12", name+"/go-execute/status-reset", ev.Pos, !(reset["err"] && reset["success"] && reset["exited"]),
 				"err, success and exited are reset before the instance is spawned",
 				"the instance is spawned without resetting err/success/exited: callers that read the status of the running instance (SetContext's rr.err == nil test, WaitExited) see the previous attempt's result", p)
@@ -103,16 +120,21 @@ func (s *sup) start(start, exec *core.FuncDecl) {
 func (s *sup) execute(exec, start *core.FuncDecl) {
 	c, a := s.c, s.a
 	name := core.FuncName(exec.Obj)
-	current := eq("ctx", s.f("ctx"))
-	regd := eq("r", s.slot)
+	current := eq(paramRole(c, exec, isContextType), s.f("ctx"))
+	self := recvRole(c, exec)
+	regd := eq(self, s.slot)
 	if s.pkg == "keyed" {
-		regd = eq("keyed.Keyed.routines[keyed.runningRoutine.key]", "r")
+		regd = eq("keyed.Keyed.routines[keyed.runningRoutine.key]", self)
+	}
+	dur := "?dur"
+	if v := assignedFromCall(exec, exec.Decl, 0, func(call *ast.CallExpr) bool { _, ok := callSel(call, "NextBackOff"); return ok }); v != nil {
+		dur = c.Role(v)
 	}
 	retryBo := s.f("retryBo")
 	if s.pkg == "routine" {
 		retryBo = "routine.RoutineContainer.retryBo"
 	}
-	armWant := fand(fand(fnot(eq("nil", retryBo)), fnot(fld(s.f("success")))), fand(regd, fnot(eq("-1", "dur"))))
+	armWant := fand(fand(fnot(eq("nil", retryBo)), fnot(fld(s.f("success")))), fand(regd, fnot(eq("-1", dur))))
 	type armPath struct {
 		lits  []*r2Lit
 		armed bool
@@ -205,6 +227,10 @@ func (s *sup) api(start, exec *core.FuncDecl) {
 		return f.Pkg() != nil && RelPkg(f.Pkg().Path()) == s.pkg && f.Origin() != exec.Obj
 	}
 	forceAllowed := map[string]bool{s.pkg + ".(*" + s.owner + ").restartRoutineLocked": true}
+	setCtxRestart, setCtxCtx := "?restart", "?ctx"
+	if d := c.Prog.Decl(c.Prog.LookupFunc(s.pkg, s.owner, "SetContext")); d != nil {
+		setCtxRestart, setCtxCtx = paramRole(c, d, isBoolType), paramRole(c, d, isContextType)
+	}
 	var entries []core.Entry
 	for _, d := range c.Prog.Funcs {
 		if RelPkg(d.Pkg.PkgPath) == s.pkg && d.Obj.Exported() && d.Decl.Recv != nil {
@@ -223,9 +249,17 @@ func (s *sup) api(start, exec *core.FuncDecl) {
 			ctxStored := map[*types.Var]bool{} // locals stored into the container ctx on this path
 			var retryStops []int
 			started, detached, rearmed := false, false, false
+			var lookupOK *types.Var // the comma-ok variable of the latest lookup in the slot
 			for i, ev := range p.Events {
 				if callsField(ev, s.f("ctxCancel")) {
 					cancelCalls++
+				}
+				if ev.Kind == core.KAssign && ev.RhsIdx == 1 && ev.Rhs != nil {
+					if ix, ok := unparen(ev.Rhs).(*ast.IndexExpr); ok {
+						if fv := fieldVar(ix.X, ev.Frame); fv != nil && core.FieldName(fv) == s.slot {
+							lookupOK = identVar(ev.Lhs, ev.Frame)
+						}
+					}
 				}
 				if ev.Kind == core.KGo && ev.Callee == exec.Obj {
 					started = true
@@ -262,7 +296,7 @@ func (s *sup) api(start, exec *core.FuncDecl) {
 					a.note("R12", site+"/force-constant", ev.Pos, bad, "forceRestart is a constant, true only in restartRoutineLocked and the retry timer", why, p)
 					if s.pkg == "routine" && strings.HasSuffix(enclosingName(c, ev), ".SetContext") {
 						a.requireGuard("R12", site+"/restart-guard", g, i, true,
-							fand(for_(eq("nil", s.f("err")), fld("restart")), fnot(eq("ctx", "nil"))), "SetContext restarting the routine")
+							fand(for_(eq("nil", s.f("err")), fld(setCtxRestart)), fnot(eq(setCtxCtx, "nil"))), "SetContext restarting the routine")
 					}
 				}
 				// slot writes: R4 (b)
@@ -276,12 +310,10 @@ func (s *sup) api(start, exec *core.FuncDecl) {
 					if okNil, _ := implies(lits, eq("nil", s.slot)); okNil {
 						oldMayExist = false
 					}
-					if s.pkg == "keyed" {
-						if okNot, _ := implies(lits, fnot(fld("existed"))); okNot && isSlotWrite {
+					if s.pkg == "keyed" && lookupOK != nil {
+						if okNot, _ := implies(lits, fnot(fld(c.Role(lookupOK)))); okNot && isSlotWrite {
 							oldMayExist = false
 						}
-					} else if okNil, _ := implies(lits, eq("nil", "prevRoutine")); okNil {
-						oldMayExist = false
 					}
 					if oldMayExist {
 						okNil, _ := implies(lits, eq("nil", s.f("ctxCancel")))
@@ -312,7 +344,7 @@ func (s *sup) api(start, exec *core.FuncDecl) {
 				lits := g.litsBefore(len(p.Events), false)
 				noCtx, _ := implies(lits, eq("nil", s.ctxFld))
 				for v := range ctxStored {
-					if ok, _ := implies(lits, eq("nil", v.Name())); ok {
+					if ok, _ := implies(lits, eq("nil", c.Role(v))); ok {
 						noCtx = true
 					}
 				}
@@ -360,8 +392,12 @@ func (s *sup) setContextPath(g *gpath, p *core.Path, cancelCalls int) {
 		return
 	}
 	lits := g.litsBefore(len(p.Events), false)
+	ctxRole := "?ctx"
+	if d := c.Prog.EnclosingDecl(p.Events[stored].Pos); d != nil {
+		ctxRole = paramRole(c, d, isContextType)
+	}
 	// same context, or no record, or already failed (its context was cancelled when it exited)
-	exempt := for_(for_(eq("ctx", s.ctxFld), eq("nil", s.slot)), for_(eq("nil", "rr"), fnot(eq("nil", s.f("err")))))
+	exempt := for_(for_(eq(ctxRole, s.ctxFld), eq("nil", s.slot)), fnot(eq("nil", s.f("err"))))
 	if s.pkg == "keyed" {
 		// keyed iterates over the records: a path without loop iteration keeps no record
 		hasIter := false
@@ -388,7 +424,7 @@ func (s *sup) keyedExtras() {
 	remove := c.declByName("R12", "keyed", "runningRoutine", "remove")
 	if remove != nil {
 		name := core.FuncName(remove.Obj)
-		regd := eq("keyed.Keyed.routines[keyed.runningRoutine.key]", "r")
+		regd := eq("keyed.Keyed.routines[keyed.runningRoutine.key]", recvRole(c, remove))
 		immediate := for_(eq("0", "keyed.Keyed.releaseDelay"), fand(fld(s.f("exited")), fnot(fld(s.f("success")))))
 		type rp struct {
 			lits []*r2Lit
@@ -448,14 +484,9 @@ func (s *sup) keyedExtras() {
 			g := prepare(c, p)
 			// segments between lookups: each `existed == true` decision must be followed, before the
 			// next lookup or the return, by deferRemove = nil or a test showing it nil
-			for i, ev := range p.Events {
-				if g.lits[i] == nil || !g.lits[i].val || g.lits[i].f.String() != "F(existed)" && !(g.lits[i].f.kind == fNot) {
-					continue
-				}
-				_ = ev
-			}
 			kept := -1
 			cleared := false
+			okRole := ""
 			flush := func(pos token.Pos) {
 				if kept >= 0 {
 					a.note("R6b", name+"/kept-record-removal-cancelled", pos, !cleared,
@@ -468,13 +499,23 @@ func (s *sup) keyedExtras() {
 				if ev.Kind == core.KLoop {
 					flush(ev.Pos)
 				}
+				// the comma-ok result of a lookup in the record table
+				if ev.Kind == core.KAssign && ev.RhsIdx == 1 && ev.Rhs != nil {
+					if ix, ok := unparen(ev.Rhs).(*ast.IndexExpr); ok {
+						if fv := fieldVar(ix.X, ev.Frame); fv != nil && core.FieldName(fv) == s.slot {
+							if v := identVar(ev.Lhs, ev.Frame); v != nil {
+								okRole = c.Role(v)
+							}
+						}
+					}
+				}
 				if l := g.lits[i]; l != nil {
 					str := l.f.String()
-					if str == "F(existed)" && l.val || str == "!F(existed)" && !l.val {
+					if okRole != "" && (str == "F("+okRole+")" && l.val || str == "!F("+okRole+")" && !l.val) {
 						kept = i
 					}
 					if kept >= 0 {
-						if str == "EQ(keyed.runningRoutine.deferRemove,nil)" && l.val || str == "!EQ(keyed.runningRoutine.deferRemove,nil)" && !l.val {
+						if ok, _ := implies([]*r2Lit{l}, eq("nil", s.f("deferRemove"))); ok {
 							cleared = true
 						}
 					}
@@ -527,7 +568,11 @@ func (s *sup) keyedExtras() {
 						"Release enters the critical section without an atomic test-and-set: releasing a reference twice counts twice", p)
 				}
 				if ev.Kind == core.KCall && ev.Callee != nil && ev.Callee.Name() == "RemoveKey" {
-					a.requireGuard("R12", name+"/remove-when-last", g, i, false, eq("0", "len(refs)"), "removing the key from Release")
+					refsRole := "?refs"
+					if v := localWhere(d, d.Decl, func(v *types.Var, _ *ast.Ident) bool { _, ok := v.Type().Underlying().(*types.Slice); return ok }); v != nil {
+						refsRole = c.Role(v)
+					}
+					a.requireGuard("R12", name+"/remove-when-last", g, i, false, eq("0", "len("+refsRole+")"), "removing the key from Release")
 				}
 			}
 		})
